@@ -53,7 +53,7 @@ def check_faulted(t, d, kw, k, kind, ref_calls):
                 out.append(("C08:evaluations-after-exception|" + ctxt, "objfun raised at call %d but %d calls were made" % (k, ncalls)))
         return out
     if isinstance(t.exception, core.Alarm):
-        out.append(("C08:does-not-terminate|" + ctxt, "fault %s at call %d: no termination within the alarm" % (kind, k)))
+        out.append(("C08:does-not-terminate|" + ctxt, "fault %s at call %d: no termination within %d s of CPU time" % (kind, k, ss.SLOW_LIMIT)))
         return out
     if t.exception is not None:
         site = raise_site(t.exception)
@@ -135,6 +135,14 @@ def _enumerate(ctx):
                 f = problems.faulty(prob["f"], k, kind)
                 np.random.seed((ctx.seed * 7919 + 808 + i) % (2 ** 32))
                 t = tr.traced_solve(dfols, f, prob["x0"], alarm=10, **kw)
+                if isinstance(t.exception, core.Alarm) and ss.SLOW_STATS["confirmed_hangs"] < 2:
+                    # a time limit is not a termination oracle (see solve_suite.SLOW_LIMIT): repeat with the long limit first
+                    ss.SLOW_STATS["repeated_with_long_limit"] += 1
+                    f = problems.faulty(prob["f"], k, kind)
+                    np.random.seed((ctx.seed * 7919 + 808 + i) % (2 ** 32))
+                    t = tr.traced_solve(dfols, f, prob["x0"], alarm=ss.SLOW_LIMIT, **kw)
+                    if isinstance(t.exception, core.Alarm):
+                        ss.SLOW_STATS["confirmed_hangs"] += 1
                 t.injected_exc = f.state.get("exc")
                 stats["faulted_runs"] += 1
                 stats["by_kind"][kind] = stats["by_kind"].get(kind, 0) + 1
@@ -162,6 +170,7 @@ def correspondence(ctx):
     runs, metas, results, stats = _enumerate(ctx)
     ss.check_acceptor(ctx, "count", runs, metas)
     ss.check_acceptor(ctx, "book", runs, metas)
+    stats["slow_runs"] = dict(ss.SLOW_STATS)
     ctx.cov["fault_enumeration"] = stats
 
 
